@@ -135,4 +135,39 @@ struct Worker {
   }
 };
 
+// ---- detail pass: re-run ONE case in a fresh exec of this harness with symbolization on (the sweep itself runs
+// with symbolize=0 because symbolizing every report costs ~0.1 s); returns "message @file:line [freed@file:line]".
+inline std::string first_tbox_frame(const std::string &e, size_t from) {
+  size_t f = e.find("/modules/", from); if (f == std::string::npos) return "";
+  size_t q = e.find_first_of(" \n", f); std::string path = e.substr(f + 9, q - f - 9);
+  size_t c1 = path.find(':'); size_t c2 = c1 == std::string::npos ? c1 : path.find(':', c1 + 1); if (c2 != std::string::npos) path.resize(c2);
+  return path;
+}
+inline std::string exec_detail(const std::vector<std::string> &args) {
+  int e[2]; if (pipe(e)) return "";
+  fflush(stdout);
+  pid_t pid = fork(); if (pid < 0) return "";
+  if (pid == 0) {
+    close(e[0]); dup2(e[1], 2); int dn = open("/dev/null", O_WRONLY); dup2(dn, 1);
+    setenv("ASAN_OPTIONS", "detect_leaks=0:abort_on_error=0:symbolize=1", 1); setenv("UBSAN_OPTIONS", "print_stacktrace=1:symbolize=1", 1);
+    std::vector<char *> av; av.push_back((char *)"/proc/self/exe"); for (auto &a : args) av.push_back((char *)a.c_str()); av.push_back(nullptr);
+    alarm(60); execv("/proc/self/exe", av.data()); _exit(127);
+  }
+  close(e[1]); std::string err; char buf[4096]; ssize_t k; while ((k = read(e[0], buf, sizeof buf)) > 0) if (err.size() < 400000) err.append(buf, (size_t)k);
+  close(e[0]); int st = 0; waitpid(pid, &st, 0);
+  std::string out; size_t p;
+  if ((p = err.find("ERROR: AddressSanitizer: ")) != std::string::npos) {
+    size_t q = err.find_first_of("\n(", p + 25); out = "ASan " + err.substr(p + 25, std::min<size_t>(q - (p + 25), 60));
+    size_t rw = err.find(" of size ", p); if (rw != std::string::npos && rw < p + 600) { size_t b0 = err.rfind('\n', rw) + 1; out += " [" + err.substr(b0, err.find(" at ", b0) - b0) + "]"; }
+    out += " at " + first_tbox_frame(err, p);
+    size_t fr = err.find("freed by thread", p); if (fr != std::string::npos) out += ", freed at " + first_tbox_frame(err, fr);
+  } else if ((p = err.find("runtime error: ")) != std::string::npos) {
+    size_t b0 = err.rfind('\n', p); b0 = b0 == std::string::npos ? 0 : b0 + 1; size_t q = err.find('\n', p);
+    out = "UBSan " + err.substr(p + 15, std::min<size_t>(q - p - 15, 110)); std::string fr = first_tbox_frame(err, b0); out += " at " + fr;
+  } else if ((p = err.find("terminate called")) != std::string::npos) {
+    size_t q = err.find('\n', err.find("what()", p) == std::string::npos ? p : err.find("what()", p)); out = err.substr(p, std::min<size_t>(q - p, 160)); for (auto &c : out) if (c == '\n') c = ' ';
+  } else out = "exit status " + std::to_string(st) + " " + esc(err.substr(0, 120));
+  return out;
+}
+
 }  // namespace c13
